@@ -20,7 +20,7 @@ CHECKS["C12"] = dict(
           "decode(encode(decode(b))) == decode(b); FuzzC12Decode (thorough) is the coverage-guided version seeded with honest messages. "
           "non-trivial = the object has an optional part present and another absent, or a boundary value (round trip); the change really "
           "changed the component (sensitivity); the bytes decoded and were not an untouched honest encoding (decode). distinct = by shape "
-          "(kind, scheme, n, presence bits, signer-set class, boundary flags, verdict) for the round trip, by case otherwise. Receive path (TestC12ReceivePath): proposals, votes, new-view and timeout messages created by one replica, marshalled, unmarshalled and handed to the REAL service handlers of server/server.go of another replica with the peer id in the connection metadata, clique and Kauri-tree configurations (a proposal relayed by an inner node of the tree): what the handler puts on the event loop has the creator's block hash, bytes-to-sign, certificates, signatures and sender."),
+          "(kind, scheme, n, presence bits, signer-set class, boundary flags, verdict) for the round trip, by case otherwise. Receive path (TestC12ReceivePath): proposals, votes, new-view and timeout messages created by one replica, marshalled, unmarshalled and handed to the REAL service handlers of server/server.go of another replica with the peer id in the connection metadata, clique and Kauri-tree configurations (a proposal relayed by an inner node of the tree): what the handler puts on the event loop has the creator's block hash, bytes-to-sign, certificates, signatures and sender. One hash, one block (TestC12HashNamesOneBlock): a block and a variant whose certificate was transformed structurally (no signature -> empty signature object of any scheme, ECDSA <-> EdDSA retyping, re-split, dropped or duplicated entries), through the wire: a variant that differs in signature presence, type, signers or per-entry bytes must have another hash; the unchanged block keeps hash and bytes."),
     assumptions=["proto.Marshal/Unmarshal of google.golang.org/protobuf stand in for the gorums transport codec (gorums uses the same library)",
                  "qspec.RequestBlockQF is exercised by the C13 check, not here",
                  "Kauri mode (proposer id taken from the wire instead of the peer) is not generated",
